@@ -118,7 +118,12 @@ func c07Message(size int, fill byte) []byte {
 // c07Run receives messages until an error and checks the framing oracle for one reader behaviour.
 // total = untruncated stream; cutAt = truncation offset (len(stream) if none).
 func c07Run(c *vlib.Check, msgs [][]byte, cutAt int, r *chunkReader, desc func() map[string]any) {
-	st := ttlv.NewStream(r, 0)
+	c07RunLimit(c, msgs, cutAt, r, 0, desc)
+}
+
+// c07RunLimit: the same with a configured maximum message size (every message of msgs must be within it).
+func c07RunLimit(c *vlib.Check, msgs [][]byte, cutAt int, r *chunkReader, limit int, desc func() map[string]any) {
+	st := ttlv.NewStream(r, limit)
 	end := 0
 	atomic.AddInt64(&c.Traces, 1)
 	for i := 0; ; i++ {
@@ -165,7 +170,8 @@ func runC07(c *vlib.Check) {
 	}
 	c.Rule = fmt.Sprintf("explicit-state search over transport answers: message sequences of length <=%d over sizes {8,16,24,520,1032} and top-level padded scalars (5-byte text, 9-byte byte string, integer); every Read(p) is answered with a size from {len(p),1,2,7,8,len(p)-1} "+
 		"(deviation = any answer other than len(p), bound %d, iterated); all 2^(L-1) segmentations of every stream of L<=%d bytes; truncation of every stream at every offset (with full reads and with 1-byte reads); "+
-		"announced lengths {limit-8, limit, limit+8, 2^31, 2^32-1} against limits {64, 1 MiB}. Reference model: split the byte stream at the announced padded lengths. "+
+		"announced lengths {limit-8, limit, limit+8, 2^31, 2^32-1} against limits {64, 1 MiB}; every answer sequence also with the limit set to the largest message of the sequence (a per-message limit must not act on the stream total); "+
+		"size histories: all ordered pairs of message sizes 16..2048 step 8 (thorough: ..8192, and triples on a 136-byte grid) on one stream, with and without that limit. Reference model: split the byte stream at the announced padded lengths. "+
 		"states = distinct (stream, answer sequence) pairs, transitions = Recv calls", maxSeq, maxDev, segL)
 	c.Assumptions = []string{"the transport never returns more than len(p) bytes and returns at least one byte per successful Read"}
 	var seqs [][]int
@@ -203,6 +209,19 @@ func runC07(c *vlib.Check) {
 			atomic.AddInt64(&states, 1)
 			c07Run(c, msgs, len(stream), r, func() map[string]any {
 				return map[string]any{"kind": "readsizes", "message_sizes": seqs[si], "choices": r.choices}
+			})
+			// the same answers with the per-message limit set to the largest message of the sequence: the limit is per
+			// message, so nothing changes however much the stream carries in total
+			lim := 0
+			for _, m := range msgs {
+				if len(m) > lim {
+					lim = len(m)
+				}
+			}
+			r2 := &chunkReader{data: stream, prefix: prefix}
+			atomic.AddInt64(&states, 1)
+			c07RunLimit(c, msgs, len(stream), r2, lim, func() map[string]any {
+				return map[string]any{"kind": "readsizes", "message_sizes": seqs[si], "choices": r2.choices, "limit": lim}
 			})
 			if si == 7 && len(prefix) == 1 {
 				c.Sample(map[string]any{"message_sizes": seqs[si], "read_answer_choices": r.choices})
@@ -272,6 +291,53 @@ func runC07(c *vlib.Check) {
 			}
 		}
 	})
+	// (5) size histories: all ordered pairs (thorough: also triples on a coarser grid) of message sizes on a dense grid, one
+	// stream per pair, with and without a limit equal to the larger one (receive-buffer reuse / growth across messages)
+	step, top := 8, 2048
+	if c.Thorough() {
+		top = 8192
+	}
+	var grid [][]byte
+	for sz := 16; sz <= top; sz += step {
+		grid = append(grid, c07Message(sz, 0x5A))
+	}
+	vlib.Parallel(len(grid), 0, func(i int) {
+		for j := range grid {
+			msgs := [][]byte{grid[i], grid[j]}
+			stream := append(append(make([]byte, 0, len(grid[i])+len(grid[j])), grid[i]...), grid[j]...)
+			lim := max(len(grid[i]), len(grid[j]))
+			for _, l := range []int{0, lim} {
+				r := &chunkReader{data: stream}
+				c07RunLimit(c, msgs, len(stream), r, l, func() map[string]any {
+					return map[string]any{"kind": "size-history", "message_sizes": []int{len(grid[i]), len(grid[j])}, "limit": l}
+				})
+			}
+		}
+		c.Mu(func() { c.Evaluations += int64(2 * len(grid)); c.DistinctN += int64(2 * len(grid)) })
+		atomic.AddInt64(&states, int64(2*len(grid)))
+	})
+	if c.Thorough() {
+		var coarse [][]byte
+		for sz := 16; sz <= 4096; sz += 136 {
+			coarse = append(coarse, c07Message(sz, 0x5B))
+		}
+		n := len(coarse)
+		vlib.Parallel(n*n, 0, func(ij int) {
+			for k := 0; k < n; k++ {
+				msgs := [][]byte{coarse[ij/n], coarse[ij%n], coarse[k]}
+				var stream []byte
+				for _, m := range msgs {
+					stream = append(stream, m...)
+				}
+				r := &chunkReader{data: stream}
+				c07RunLimit(c, msgs, len(stream), r, 0, func() map[string]any {
+					return map[string]any{"kind": "size-history", "message_sizes": []int{len(msgs[0]), len(msgs[1]), len(msgs[2])}, "limit": 0}
+				})
+			}
+			c.Mu(func() { c.Evaluations += int64(n); c.DistinctN += int64(n) })
+			atomic.AddInt64(&states, int64(n))
+		})
+	}
 	// (4) announced lengths against the configured maximum (sequential: measures allocation)
 	for _, limit := range []int{64, 1 << 20} {
 		for _, total := range []int64{int64(limit) - 8, int64(limit), int64(limit) + 8, 1 << 31, 1<<32 - 1 + 8 - 7} {
